@@ -3,6 +3,7 @@
 # not disturbed), run the check against it (VERIF_REPO), undo. Prints the first violations and the exit code.
 wt=$1; l=$2; p=$3; tier=${4:-quick}
 S=/tmp/repo-seed
+exec 9>/tmp/try_seed.lock; flock 9    # one scratch worktree: serialise concurrent callers
 cd /verif
 if [ ! -d $S ]; then git -C /repo worktree add --detach $S HEAD -q; fi
 git -C $S checkout -q --detach $(git -C /repo rev-parse HEAD) 2>/dev/null; git -C $S checkout -q -- .
